@@ -625,6 +625,19 @@ class Gen:
                     self.subs, self.unsubs, self.ping = [], [], None
                     self.emit("rs")
                 return
+            if r.random() < self.p.get("slowclose", 0.12) and call != "ping":
+                # the connection dies while a write is in progress and its Close is slow: requests that still get through on the
+                # dying connection must be told about its loss
+                self.emit("wpol g", "call %s %s" % (tag, call), "cpol g",
+                          "feed %s block" % H(r.choice([bytes([0x90, 3, 0x60, 1, 3]), bytes([0x00, 0]), bytes([0x20, 2, 0, 0])])), "wgo ok")
+                for _ in range(r.choice([1, 2])):
+                    self.ntag += 1
+                    self.emit("call t%d %s" % (self.ntag, r.choice(["sub 1 62", "unsub 63", "ping", "pub 0 74 6869"])))
+                self.emit("cgo", "rs")
+                self.link, self.parked, self.reader_out, self.doomed = "pending", False, False, False
+                self.subs, self.unsubs, self.ping = [], [], None
+                self.connect()
+                return
             self.emit("wpol g", "call %s %s" % (tag, call))
             # more requests queue up on the write semaphore behind the blocked one; the broker may answer meanwhile
             def ident(c):
